@@ -103,6 +103,16 @@ Clauses(e) ==
                       LAMBDA s : T!ClientStream(s, e.boards, e.decs, e.teams))
      \o ItemClauses(e, Len(e.boards))
      \o ReplicaClauses(e)
+  ELSE IF e.kind = "ready-fault" THEN
+     \* growth (extra check X02): a malformed ready-line is answered with one
+     \* error and a close, and the session hangs with the log left open - the
+     \* behaviour Table.tla documents (ReadyFaultHangs, ReadyFaultOneError)
+     << <<"hangs", e.done.verdict = "deadlock">>,
+        <<"main-still-waiting", e.stuck.main_alive /\ ~e.done.main_exc>>,
+        <<"log-left-open", ~e.stuck.file_closed>>,
+        <<"offender-one-error", e.offender.last = "ERROR: Unexpected message received."
+                                  /\ e.offender.server_closed>>,
+        <<"others-not-closed", ~e.others_closed>> >>
   ELSE IF e.kind = "abort" THEN
      IF ~DecsComplete(e, e.completed)
      THEN << <<"abort-decisions-of-finished-boards", FALSE>> >>
